@@ -323,6 +323,10 @@ class IrcUser(object):
         if nick not in self.nicks[network]:
             raise KeyError
         self.nicks[network].remove(nick)
+        if not self.nicks[network]:
+            # An empty list would be written as "nicks <network> " and read
+            # back as [''].
+            del self.nicks[network]
 
     def addAuth(self, hostmask):
         """Sets a user's authenticated hostmask.  This times out according to
